@@ -639,7 +639,7 @@ def mount_geometries(seed, quick):
             v['root_cluster'] = rng.choice([2, 2, 3, 9])
             v['fsinfo'] = rng.choice([1, 2, reserved - 1])
         else:
-            v['root_entries'] = rng.choice([16, 32, 112, 512])
+            v['root_entries'] = [16, 32, 112, 512, 17, 500, 225, 33][k % 8] if k % 2 else rng.choice([16, 32, 112, 512, 17, 500, 225, 33])
             v['total16'] = rng.random() < 0.5
         low = [c for c in range(2, 30) if c != v.get('root_cluster')][:6]
         root, used = tree_T1(low, bpc)
